@@ -231,6 +231,7 @@ def dispatch(rep, ctx, sfx):
             continue
         hf = terms.HirFront(vfn, {}, rec_callees=[c02.VM + "::parse_expr"], skip_callees=[c02.VM + "::skip"],
                             rule_callees=[c02.VM + "::parse_rule"])
+        body = c02.specialise_arm(vfn, body, name, False)
         t = hf.term(body)
         ws, tbody = c02.wrappers(norm(t))
         seen[name] = True
